@@ -227,6 +227,98 @@ def h_rng_source(env, sim, shots):
     env.holds("samples of two runs with the same seed are identical", sorted(outs[0]) == sorted(outs[1]))
 
 
+# ----------------------------------------------------------------------------------------------- per-shot seeds, sequential vs dask
+class _FakeDask:
+    """dask.delayed / dask.compute contract: compute returns the results of the delayed calls in the order they were given"""
+    class _Delayed:
+        def __init__(self, f):
+            self.f = f
+
+        def __call__(self, *a, **k):
+            return ("call", self.f, a, k)
+
+    def delayed(self, f):
+        return _FakeDask._Delayed(f)
+
+    def compute(self, *items):
+        # executed in reverse order: a worker pool gives no ordering guarantee, only the positions of the results are fixed
+        res = {}
+        for i in reversed(range(len(items))):
+            _, f, a, k = items[i]
+            res[i] = f(*a, **k)
+        return tuple(res[i] for i in range(len(items)))
+
+
+def h_shot_seeds(env, shots):
+    """passive sampling, for EVERY Config seed (symbolic integer): shot idx is generated from a generator seeded with seed + idx,
+    whether the shots run sequentially or through dask; the generator constructor and the per-sample generator are contract
+    stubs that record the seed they are handed"""
+    import sys
+    import types
+    from piquasso._simulators.passive import sampling as S
+    env.functions += [core.fn_ref(S._generate_samples)]
+    env.stubs += ["numpy.random.default_rng inside passive/sampling.py = recorder of its seed", "sample generator = returns the seed of the generator it is handed",
+                  "dask.delayed / dask.compute = contract stub (results in submission order, execution order reversed)"]
+    seed = env.ivar("seed", 0, 2 ** 62)
+    if env.mode == "num":
+        import piquasso as pq
+        outs = []
+        for use_dask in (False, True):
+            sim = pq.SamplingSimulator(d=3, config=pq.Config(seed_sequence=int(seed), use_dask=use_dask))
+            with pq.Program() as prog:
+                pq.Q(0, 1, 2) | pq.StateVector([1, 1, 0])
+                pq.Q(0, 1) | pq.Beamsplitter(theta=0.7, phi=0.2)
+                pq.Q(1, 2) | pq.Beamsplitter(theta=0.4, phi=0.1)
+                pq.Q(0, 1, 2) | pq.ParticleNumberMeasurement()
+            outs.append([tuple(int(x) for x in s) for s in sim.execute(prog, shots=shots).samples])
+        env.holds("dask and sequential execution hand the same seed to every shot", outs[0] == outs[1])
+        return
+
+    class _NP:
+        sum = staticmethod(numpy.sum)
+
+        class random:
+            @staticmethod
+            def default_rng(seed=None):
+                return ("rng", seed)
+
+    def gen(d, n, perm, interferometer, fq, rng):
+        return (rng[1],)
+
+    class _Cfg:
+        def __init__(self, use_dask):
+            self.seed_sequence = si.SI(seed, 64)
+            self.use_dask = use_dask
+
+    saved_np = S.np
+    saved_dask = sys.modules.get("dask")
+    fake = types.ModuleType("dask")
+    fd = _FakeDask()
+    fake.delayed, fake.compute = fd.delayed, fd.compute
+    outs = []
+    try:
+        S.np = _NP
+        sys.modules["dask"] = fake
+        for use_dask in (False, True):
+            outs.append(S._generate_samples(numpy.array([1, 1, 0]), shots, None, None, gen, _Cfg(use_dask)))
+    finally:
+        S.np = saved_np
+        if saved_dask is not None:
+            sys.modules["dask"] = saved_dask
+        else:
+            sys.modules.pop("dask", None)
+    ok = []
+    for which, out in zip(("sequential", "dask"), outs):
+        env.holds("%s: one sample per shot" % which, len(out) == shots)
+        for idx in range(min(shots, len(out))):
+            got = out[idx][0]
+            ok.append(si.SI.lift(got).e == seed + idx)
+    env.holds("dask and sequential execution hand the same seed to every shot", xa.SymBool(z3.And(*ok)) if ok else True)
+
+
+h_shot_seeds.replay_any = True
+
+
 class _SymSeed:
     """a symbolic integer seed: truthiness is decided by the solver (forks the path), equality is a z3 term"""
     def __init__(self, env, e):
@@ -284,7 +376,7 @@ h_seed_identity.replay_any = True
 h_rng_source.replay_any = True
 h_partition.replay_any = True
 
-HARNESSES = {"partition": h_partition, "jobs": h_jobs, "rng_source": h_rng_source, "seed_identity": h_seed_identity}
+HARNESSES = {"partition": h_partition, "jobs": h_jobs, "rng_source": h_rng_source, "seed_identity": h_seed_identity, "shot_seeds": h_shot_seeds}
 
 
 def instances(tier):
@@ -294,6 +386,7 @@ def instances(tier):
     out += [("jobs", {"rows": list(r), "cols": list(c), "kernel": "laplace"}) for r, c in (((2, 1), (2, 2)), ((2, 2), (3, 2)), ((2, 2, 1), (2, 3, 1)))]
     out += [("rng_source", {"sim": s, "shots": 2}) for s in ("pure", "mixed")]
     out += [("seed_identity", {})]
+    out += [("shot_seeds", {"shots": n}) for n in (1, 5, 33, 70)]
     if tier == "thorough":
         out += [("jobs", {"rows": list(r), "cols": list(c)}) for r, c in (((4, 2, 1), (2, 3, 2)), ((3, 3), (3, 3)), ((2, 1, 2), (1, 2, 2)), ((2, 1, 2, 1), (1, 2, 2, 1)))]
         out += [("rng_source", {"sim": s, "shots": 3}) for s in ("pure", "mixed")]
@@ -315,10 +408,10 @@ def run(rep, tier, seed, opts):
     if opts.get("only"):
         inst = [i for i in inst if opts["only"] in i[0] or opts["only"] in str(i[1])]
     rep.bounds = {"partition": "idx_max 1..2^31, hardware_concurrency 0..65536, any job (symbolic)", "whole function": "multiplicity patterns with <= 5 (7 thorough) photons on <= 3 rows, thread counts 0..1024",
-                  "rng_source": "2 (3) shots, 2 modes, cutoff 2, one photon behind a beamsplitter, pure and mixed Fock simulators",
+                  "shot_seeds": "1, 5, 33, 70 shots; every seed 0..2^62 (symbolic)", "rng_source": "2 (3) shots, 2 modes, cutoff 2, one photon behind a beamsplitter, pure and mixed Fock simulators",
                   "outside": "OpenMP / numba prange scheduling itself (the jobs are interpreted sequentially; their accumulators are per job by construction of the source), dask, "
                              "float non-associativity of the final reduction, PCG64 / Mersenne Twister internals (contract stubs), different seeds give different samples, "
-                             "Gaussian and passive samplers' generator provenance, idx_max beyond 2^31 (the counter narrows offsets to int)"}
+                             "Gaussian samplers' generator provenance and per-shot seeds, idx_max beyond 2^31 (the counter narrows offsets to int)"}
     o = {"timeout_s": 60 if tier == "quick" else 300, "instance_timeout_s": 900, "seed": seed, "validation_points": 2, "path_budget": 400, "som_blowup": True}
     for r in core.run_instances(__name__, [i for i in inst if i[0] != "rng_source"], o, jobs=opts.get("jobs")):
         rep.add_instance_result(__name__, r)
